@@ -90,6 +90,7 @@ type ZOuter struct {
 	MA      map[string]interface{}
 	MP      map[string]*ZInner
 	MK      map[interface{}]string
+	ME      map[string]string // has the empty string as a key
 	Iface   interface{}
 	SF      ZShadowFirst
 	SL      ZShadowLast
@@ -120,6 +121,7 @@ func zooRoot(variant int) interface{} {
 		MA:    map[string]interface{}{"s": "str", "n": nil, "in": &ZInner{Val: 1, Name: "ma-in"}, "m": map[string]int{"deep": 99}},
 		MP:    map[string]*ZInner{"p": {Val: 2, Name: "mp-p"}, "nilp": nil},
 		MK:    map[interface{}]string{"ik": "interface-key"},
+		ME:    map[string]string{"": "value-under-empty-key", "k": "v"},
 		Iface: ZInner{Val: 5, Name: "iface-inner"},
 		SF:    ZShadowFirst{Title: "sf-outer-title", ZBase: ZBase{ID: 1, Title: "sf-base-title"}},
 		SL:    ZShadowLast{ZBase: ZBase{ID: 2, Title: "sl-base-title"}, Title: "sl-outer-title"},
@@ -367,10 +369,18 @@ func zOptions(v reflect.Value) (valid, invalid []zStep) {
 		keys := d.MapKeys()
 		sort.Slice(keys, func(i, j int) bool { return fmt.Sprint(keys[i].Interface()) < fmt.Sprint(keys[j].Interface()) })
 		if d.Type().Key().Kind() == reflect.String {
+			hasEmpty := false
 			for _, k := range keys {
-				valid = append(valid, zStep{Kind: "field", Name: k.String()})
+				st := zStep{Kind: "field", Name: k.String()}
+				if k.String() == "" {
+					st.Spell, hasEmpty = "bracket", true // m[""]: only index syntax can spell it
+				}
+				valid = append(valid, st)
 			}
 			valid = append(valid, zStep{Kind: "field", Name: "absentKey", Spell: "bracket"})
+			if !hasEmpty {
+				valid = append(valid, zStep{Kind: "field", Name: "", Spell: "bracket"}) // absent empty key
+			}
 		} else if d.Type().Key().Kind() == reflect.Interface {
 			// interface-keyed map: only probed by C17's dedicated unhashable-key form
 		} else {
